@@ -287,8 +287,13 @@ func pickScenario(scs []*Scenario, i int) (*Scenario, int) {
 				return s, i
 			}
 			i -= s.Cells
-		} else {
+		} else if s.Rare == 0 {
 			sampled = append(sampled, s)
+		}
+	}
+	for _, s := range scs {
+		if s.Cells == 0 && s.Rare > 0 && (i%s.Rare == s.Rare-1 || len(sampled) == 0) {
+			return s, 0
 		}
 	}
 	if len(sampled) == 0 {
